@@ -14,10 +14,17 @@ import (
 	_ "github.com/33cn/chain33/system" // crypto + address drivers, coins
 	"github.com/33cn/chain33/types"
 	"github.com/33cn/chain33/wallet"
+	bip39 "github.com/33cn/chain33/wallet/bipwallet/go-bip39"
 )
 
-// Seed is a valid 15-word english mnemonic (the one the repository's own tests use).
-const Seed = "since spider beyond rate glory bridge entire cheese like rate glory vital outdoor attack merge"
+// Mnemonic returns the valid 15-word mnemonic of 20 bytes of entropy (lang 0 english, 1 chinese).
+func Mnemonic(entropy []byte, lang int32) string {
+	m, err := bip39.NewMnemonic(entropy[:20], lang)
+	if err != nil {
+		panic(err)
+	}
+	return m
+}
 
 type Env struct {
 	Cfg  *types.Chain33Config
